@@ -244,11 +244,12 @@ func (r *c9Runner) evalClient(c *c9ClientRun, segFirst map[*c9AU]*c9AU) {
 			}
 		}
 		switch {
-		case lastEmpty > lastZero:
-			fail("F15-empty-rendition-part:", "client fatal \"could not find data of leading track\" after the muxer served %s without any sample of the stream's only track", c9Canonical(strings.TrimPrefix(c.served[lastEmpty].path, "/")))
 		case lastZero >= 0:
-			// timing: the (slow) client asked for a preload hint whose part had left the window meanwhile; the
-			// placeholder handler finds no handler and writes nothing (200, empty body). Same class as `gone`.
+			// timing: the (slow) client asked for a segment / preload hint that had left the window meanwhile: the RAM
+			// storage (or the hint placeholder) answers 200 with an EMPTY body, which the client - rightly, since the
+			// refinement of the F15 repair - does not take for a sample-less part. Same class as `gone`.
+		case lastEmpty >= 0:
+			fail("F15-empty-rendition-part:", "client fatal \"could not find data of leading track\" after the muxer served %s without any sample of the stream's only track", c9Canonical(strings.TrimPrefix(c.served[lastEmpty].path, "/")))
 		default:
 			fail("", "client fatal \"could not find data of leading track\" although every served part/segment carried samples")
 		}
